@@ -1,0 +1,43 @@
+"""Verification hooks (off unless SOLVOR_VERIF=1).
+
+Solvers report internal steps through ``emit`` so an external checker can validate
+executions against a specification. With the guard off ``ENABLED`` is False and every
+hook site is a single false test.
+"""
+
+import os
+
+__all__ = ["ENABLED", "emit", "start", "stop"]
+
+ENABLED = os.environ.get("SOLVOR_VERIF") == "1"
+MAX_EVENTS = 20000
+
+_sink: list | None = None
+_dropped = 0
+
+
+def emit(kind: str, **fields) -> None:  # pragma: no cover
+    """Append one event to the active sink (no-op when no sink is installed)."""
+    global _dropped
+    if _sink is None:
+        return
+    if len(_sink) >= MAX_EVENTS:
+        _dropped += 1
+        return
+    fields["e"] = kind
+    _sink.append(fields)
+
+
+def start() -> list:  # pragma: no cover
+    """Install a fresh sink and return it."""
+    global _sink, _dropped
+    _sink = []
+    _dropped = 0
+    return _sink
+
+
+def stop() -> tuple[list, int]:  # pragma: no cover
+    """Remove the sink; returns (events, number of events dropped beyond MAX_EVENTS)."""
+    global _sink
+    s, _sink = _sink, None
+    return (s or []), _dropped
